@@ -67,6 +67,25 @@ def _gen_exec(args):
     return r
 
 
+def _spin_to_result(m, r, seed=None, case=None):
+    """A run in which one reactor event never returned (CPU watchdog, sim/runner.py).  For properties that promise an
+    outcome of the operation this is a violation when the loop is in the code under test; otherwise a harness failure."""
+    if not r.get("spin"):
+        return r
+    if getattr(m, "SPIN_IS_VIOLATION", False) and r.get("in_code_under_test"):
+        prop = m.PROPERTY
+        out = {"violations": [{"clause": "%s.never-returns" % prop, "sig": "%s.never-returns.%s" % (prop, r.get("at")),
+                               "detail": "the operation never returns to the reactor: one event (%s) ran for %s CPU seconds inside %s\n%s" % (
+                                   r.get("event"), r.get("cpu_s"), r.get("at"), r.get("where", ""))}],
+               "digest": "spin:%s" % r.get("at"), "fingerprint": "spin", "nontrivial": True, "events": 0, "sim_s": 0.0, "faults": {}, "probes": {}}
+        if seed is not None:
+            out["seed"] = seed
+        if case is not None:
+            out["case"] = case
+        return out
+    return {"harness_timeout": True, "where": r.get("where"), "spin": True}
+
+
 def _clauses(r):
     return sorted(set(v["clause"] for v in r.get("violations", [])))
 
@@ -78,7 +97,7 @@ def replay_file(check, path, quiet=False):
     m = _mod(check)
     res = run_forked(_exec_case, [(check, case)], chunk=1, workers=1,
                      timeout=getattr(m, "TIMEOUT", 120) * 3)[0]
-    return doc, res
+    return doc, _spin_to_result(m, res)
 
 
 def minimise(check, case, clause, budget_s=90):
@@ -216,13 +235,20 @@ def main(argv=None):
     results = run_forked(_gen_exec, [(check, s, a.tier) for s in seeds], chunk=chunk,
                          timeout=timeout * (chunk if chunk > 1 else 1) + 30, wall_budget=wall, item_timeout=timeout)
 
+    for i, r in enumerate(results):
+        if r.get("spin"):
+            results[i] = _spin_to_result(m, r, seeds[i], m.generate(seeds[i], a.tier))
     # retry harness failures once, serially (a loaded machine must not look like a defect)
     bad = [i for i, r in enumerate(results) if r.get("harness_timeout") or r.get("harness_error")]
     if bad and len(bad) <= 8:
         retry = run_forked(_gen_exec, [(check, seeds[i], a.tier) for i in bad], chunk=1, workers=4,
                            timeout=timeout * 3)
         for i, r in zip(bad, retry):
-            results[i] = r
+            results[i] = _spin_to_result(m, r, seeds[i], m.generate(seeds[i], a.tier)) if r.get("spin") else r
+    bad = [i for i, r in enumerate(results) if r.get("harness_timeout") or r.get("harness_error")]
+    for r in results:
+        if not r.get("skipped") and not r.get("harness_timeout") and not r.get("harness_error") and "violations" not in r:
+            r["harness_error"] = "malformed result: %r" % (sorted(r),)
     bad = [i for i, r in enumerate(results) if r.get("harness_timeout") or r.get("harness_error")]
     done = [r for r in results if not r.get("skipped") and not r.get("harness_timeout") and not r.get("harness_error")]
 
@@ -261,7 +287,7 @@ def main(argv=None):
         for r in sorted(rs, key=lambda r: len(json.dumps(r.get("case"), default=_jsondefault)))[:3]:
             case = json.loads(json.dumps(r["case"], default=_jsondefault))
             note = "unminimised"
-            if not a.no_minimise:
+            if not a.no_minimise and not clause.endswith(".never-returns"):
                 try:
                     case, tried = minimise(check, case, clause)
                     note = "minimised (%d candidates tried)" % tried
